@@ -180,19 +180,21 @@ theorem C06_result_is_the_reference_meaning {fetch : Bytes → Option Table} {q 
 aggregates, no GROUP BY) that has a reference meaning `want`, whose ORDER BY keys resolve against the
 judge's header and are comparable on `want`, is not refused: the executor answers with that header
 and `cut (sortRows keys got)` for a permutation `got` of `want`, and the judge's test accepts the
-answer.  No hypothesis on WHERE, none on the shape of the stored rows. -/
+answer.  No hypothesis on WHERE, none on the shape of the stored rows.  `hlist`, `hlim` as in
+`C05_meaningful_query_is_answered`: a select list that is not empty, no negative LIMIT / OFFSET
+(every parsed statement; without them the executor panics: `C05_empty_list_and_negative_bounds_panic`). -/
 theorem C06_meaningful_query_is_answered {fetch : Bytes → Option Table} {q : Select}
     {l : TableRef} {jt : JoinType} {r : TableName} {on : Cond}
     {want : List Row} {keys : List (Nat × Bool)}
     (hfrom : q.from_ = some (.join l jt r on)) (hagg : hasAggr q.list = false)
-    (hgb : q.groupBy = [])
+    (hgb : q.groupBy = []) (hlist : q.list ≠ []) (hlim : Spec.boundsOK q.lim = true)
     (hm : Spec.meaning fetch q = some want)
     (hk : Spec.sortKeys q (judgeHeader fetch q) = some keys)
     (hcomp : ∀ a ∈ want, ∀ b ∈ want, KeyComparable keys a b) :
     ∃ got, got.Perm want ∧
       evaluateSelect fetch q = .ok (cut q.lim (sortRows keys got), judgeHeader fetch q) ∧
       Spec.satisfies q (judgeHeader fetch q) want (cut q.lim (sortRows keys got)) = true := by
-  obtain ⟨got, hp, he⟩ := from_any_answered hfrom hagg hgb hm hk hcomp
+  obtain ⟨got, hp, he⟩ := from_any_answered hfrom hagg hgb hlist hlim hm hk hcomp
   exact ⟨got, hp, he, satisfies_perm (comparedExactly_join hfrom) hk hp hcomp⟩
 
 /-- **C06.sorted_keys_of_permutations_agree**: why the judge may compare the key sequence of the
@@ -226,7 +228,8 @@ example : exJoinQuery.from_ = some (.join
       ⟨Example.bt, some Example.bw⟩
       (.pred ⟨.col ⟨Example.bu, Example.bid⟩, Generated.t_EQ, .col ⟨Example.bw, Example.bid⟩⟩)) ∧
     hasAggr exJoinQuery.list = false ∧ exJoinQuery.groupBy = [] ∧
-    whereIsBoolean exJoinQuery = true := by decide
+    whereIsBoolean exJoinQuery = true ∧ exJoinQuery.list ≠ [] ∧
+    Spec.boundsOK exJoinQuery.lim = true := by decide
 example : Spec.meaning Example.fetchX exJoinQuery = some exJoinWant := by decide
 example : judgeHeader Example.fetchX exJoinQuery =
     [⟨Example.bt, Example.bx⟩, ⟨Example.bu, Example.by_⟩] := by decide
